@@ -89,6 +89,23 @@ PROPS = {
         "bounds": {"quick": "4 record kinds x 3 acceptance paths (paid client put, unpaid update, replication) x {derived key, foreign key}; the foreign key is also held where the path requires a held record"},
         "outside": ["RecordStore::put (libp2p inbound path: unverified records are only forwarded as events)", "rmp decoding of adversarial bytes", "SHA-3 as the chunk name function (real code runs on concrete bytes)"],
     },
+    "C06": {
+        "parts": [
+            {"engine": "D", "crate": "d_reg", "harnesses": [
+                {"name": "c06_limits", "covers": ["accepted", "rejected", "merged"], "quick": {"max_paths": 1000, "timeout": 300}},
+                {"name": "c06_auth", "covers": ["accepted", "rejected"], "quick": {"max_paths": 1000, "timeout": 300}},
+                {"name": "c06_converge", "covers": ["delivered"], "quick": {"max_paths": 1000, "timeout": 600}},
+            ]},
+        ],
+        "assumptions": [
+            "engine D on the whole ant-registers crate transplanted as a module tree (address, error, metadata, permissions, reg_crdt, register, register_op); real blsttc signatures and the real crdts MerkleReg run natively",
+            "8 checked substitution sites in register.rs make the two numeric limits symbolic: `self.ops.len()` is the real count plus a symbolic number of further valid entries every replica already holds; `op.crdt_op.value.len()` is a symbolic size for the entry the harness declares (signatures do not cover the declared size)",
+            "the 64-bit DefaultHasher digest that RegisterOp signs is treated as collision free",
+            "most of this property's quantifier is discrete (which operations, which replica, which order) and is covered by choice forks exhaustively within the bound; the solver decides the size and count limits",
+        ],
+        "bounds": {"quick": "entry size and number of entries already held fully symbolic (64-bit, < 5000 entries); one new operation, one merge of two valid replicas; permissions {anyone, writers}, signer {owner, writer, stranger}, signature {genuine, forged, for another register}, through add_op and verified_merge; pool of 3 operations (one causally dependent) delivered to 2 replicas in all 6x6 orders with a duplicate"},
+        "outside": ["more operations and replicas", "the crdts crate itself", "hash collisions of the signed digest"],
+    },
     "C07": {
         "parts": [
             {"engine": "D", "crate": "d_node", "harnesses": [
